@@ -27,9 +27,9 @@ func init() {
 }
 
 func runC18(c *engine.Ctx) {
-	r1 := c.Rule("R1", "single FIFO command list: tail append / head removal under the command lock; one consumer goroutine; all producers go through the enqueue function", 8)
+	r1 := c.Rule("R1", "single FIFO command list: tail append / head removal under the command lock; one consumer goroutine; all producers go through the enqueue function", 3)
 	r2 := c.Rule("R2", "OnNext only from send over the topic's subscribers; OnClose only from remove, after membership tests and deletion", 2)
-	r3 := c.Rule("R3", "loop left only on shutdown; remaining subscriptions removed; no dequeue afterwards; producers are no-ops once closed (state lock discipline)", 7)
+	r3 := c.Rule("R3", "loop left only on shutdown; remaining subscriptions removed; no dequeue afterwards; producers are no-ops once closed (state lock discipline)", 3)
 
 	cmds := c.P.Field("notifications", "publisher", "cmds")
 	closed := c.P.Field("notifications", "publisher", "closed")
